@@ -196,7 +196,8 @@ fn ser_body<'tcx>(tcx: TyCtxt<'tcx>, owner: DefId, body: &Body<'tcx>, b: &mut J)
     for (i, d) in body.local_decls.iter_enumerated() {
         locals.push(
             J::obj()
-                .set("ty", J::s(ty_s(d.ty)))
+                .set("ty", J::s(cx.nty(d.ty)))
+                .set("ty_raw", J::s(ty_s(d.ty)))
                 .set("name", J::opt_s(names[i.as_usize()].clone()))
                 .set("mut", J::Bool(d.mutability.is_mut())),
         );
@@ -222,6 +223,14 @@ fn ser_body<'tcx>(tcx: TyCtxt<'tcx>, owner: DefId, body: &Body<'tcx>, b: &mut J)
 }
 
 impl<'a, 'tcx> Ctx<'a, 'tcx> {
+    /// type string with concrete projections normalised (generic ones are left as written)
+    fn nty(&self, t: Ty<'tcx>) -> String {
+        match self.tcx.try_normalize_erasing_regions(self.typing_env(), ty::Unnormalized::new_wip(t)) {
+            Ok(n) => ty_s(n),
+            Err(_) => ty_s(t),
+        }
+    }
+
     fn typing_env(&self) -> ty::TypingEnv<'tcx> {
         let root = self.tcx.typeck_root_def_id(self.owner);
         ty::TypingEnv::post_analysis(self.tcx, root)
@@ -645,9 +654,9 @@ impl<'a, 'tcx> Ctx<'a, 'tcx> {
                 let mut c = J::obj().set("k", J::s("call"));
                 c.put("func", self.operand(func));
                 c.put("args", J::Arr(args.iter().map(|a| self.operand(&a.node)).collect()));
-                c.put("arg_tys", J::Arr(args.iter().map(|a| J::s(ty_s(a.node.ty(&self.body.local_decls, tcx)))).collect()));
+                c.put("arg_tys", J::Arr(args.iter().map(|a| J::s(self.nty(a.node.ty(&self.body.local_decls, tcx)))).collect()));
                 c.put("dest", self.place(destination));
-                c.put("dest_ty", J::s(ty_s(destination.ty(&self.body.local_decls, tcx).ty)));
+                c.put("dest_ty", J::s(self.nty(destination.ty(&self.body.local_decls, tcx).ty)));
                 c.put("target", match target { Some(b) => J::Int(b.as_usize() as i128), None => J::Null });
                 c.put("unwind", self.unwind(unwind));
                 c.put("source", J::s(format!("{:?}", call_source)));
